@@ -586,7 +586,8 @@ const _: () = {
             let (element, remaining) = self.section.split_at(size);
             self.section = remaining;
 
-            seed.deserialize(element.into_deserializer()).map(Some)
+            /* an element is a value that doesn't contain `,` : numbers, percent-encoded strings, ... */
+            seed.deserialize(&mut URLEncodedDeserializer { input: element, side: ParsingSide::Value }).map(Some)
         }
     }
 };
